@@ -892,5 +892,13 @@ def run(ctx):
     e11(ctx)          # candidate scans start afresh on every round (no one-shot iterator re-walked)
     r01f(ctx)
     r01g(ctx)
+    # defects recorded for other properties that also break this one (hunting wave 3): each is a part of a document that
+    # no edit accounts for, or a pair of unequal parts reported as kept
+    from . import c02, c03, c13
+    c02.r02h(ctx)     # parts of a parsed XML element that never reach the tree are accounted for by nothing
+    c02.r02b(ctx)     # unequal leaves at cost 0 are reported as kept
+    c02.r02l(ctx)     # an empty set and an empty mapping are "the same" element
+    c03.r03h(ctx)     # repeated members collapse into one entry of the matcher: copies are lost or the diff never ends
+    c13.h13(ctx)      # byte strings have no edit script at all
     ctx.assume("which equal-looking elements are the *right* ones to pair (values) and the behaviour of the third-party "
                "assignment solver are not decided; any monotone path of coherent steps is a valid list partition")
